@@ -168,6 +168,16 @@ class _Sim:
             if writing and cls not in ("python",):
                 self.io_step("open:" + cls)
             return
+        if event == "sqlite3.connect":
+            # the database file is opened by the C library, not through open(): treat it as a write-open of that path
+            path = args[0]
+            if isinstance(path, (str, bytes)) or hasattr(path, "__fspath__"):
+                p = os.fsdecode(os.fspath(path))
+                if p != ":memory:" and not p.startswith("file::memory:") and p != "":
+                    a, real = self.norm(p)
+                    self.record("open", path=a, real=real, cls=classify(real, self.layout), w=True, mode="sqlite3", flags=None)
+                    self.io_step("open:sqlite3")
+            return
         if event == "import":
             name = args[0]
             importer = None
@@ -588,6 +598,21 @@ def main():
         traceback.print_exc()
         py_exc = "%s: %s" % (type(exc).__name__, exc)
         code = 1
+    # what a real interpreter does between the end of main and process exit, still under the hook: join non-daemon threads, run
+    # atexit handlers (a cache flushed "on exit", a report written from an atexit hook ... must be seen by the monitors too)
+    sim.armed = True
+    try:
+        th = sys.modules.get("threading")
+        if th is not None and th.active_count() > 1:
+            sim.record("info", name="threads-alive-at-exit", detail=repr(sorted(t.name for t in th.enumerate()))[:200])
+            th._shutdown()  # pylint: disable=protected-access
+        import atexit  # pylint: disable=import-outside-toplevel
+
+        atexit._run_exitfuncs()  # pylint: disable=protected-access
+    except SystemExit:
+        pass
+    except BaseException as exc:  # pylint: disable=broad-except
+        sys.stderr.write("exception during interpreter shutdown: %s: %s\n" % (type(exc).__name__, exc))
     sim.finish(code, py_exception=py_exc)
 
 
